@@ -684,6 +684,10 @@ class C17(core.Check):
                     out.append({"site": f"{name}:update-moves-leader", "what": f"the leader array set by the caller was changed by update() (leader -> {m})", "observed": st["leader"]})
                     break
                 l1, f1 = A(st["leader"]), A(st["follower"])
+                if not (np.all(np.isfinite(l1)) and np.all(np.isfinite(f1))):
+                    # comparisons with nan are all false: a non-finite follower must not pass as 'relation kept'
+                    out.append({"site": f"{name}:follower-not-finite", "what": f"leader -> {m}", "observed": st["follower"]})
+                    break
                 sc = _scale(l1, f1)
                 if k == "tlink":
                     f0 = A(FV(case["follower"]))
